@@ -501,6 +501,9 @@ def unit_bounded_setup(tier=None, seed=0):
         "right only": (script(p14="2.5"), {"range_x": [0.0, 2.5e-6]}),
         "left and right": (script(p13="-1", p14="3"), {"range_x": [-1e-6, 3e-6]}),
         "weight 0.7": (script(p15="0.7"), {"weight_cp": 0.7e-6}),
+        "weight 0": (script(p15="0"), {"weight_cp": 0.0}),
+        "interval -2..0": (script(p13="-2", p14="0"), {"range_x": [-2e-6, 0.0]}),
+        "contact point value 0 over a non-zero default": (script(p8="1e-6"), {"fit param contact_point value": 1e-6}),
     }
     problems, ne, samples = [], 0, []
     for name, (answers, expect) in scripts.items():
@@ -536,6 +539,24 @@ def unit_bounded_setup(tier=None, seed=0):
                 samples.append(case)
         finally:
             shutil.rmtree(tmp, ignore_errors=True)
+    # answers given in a SECOND session must replace what the first session stored (incl. zeros)
+    tmp = pathlib.Path(tempfile.mkdtemp(prefix="vf-c19s-"))
+    try:
+        ne += 1
+        _run_setup(script(p8="1e-6", p13="-2", p14="3", p15="1"), tmp)
+        pf, _ = _run_setup(script(p8="0", p13="0", p15="0"), tmp)
+        got = {"range_x": pf["range_x"], "weight_cp": pf["weight_cp"],
+               "fit param contact_point value": pf.load().get("fit param contact_point value")}
+        want = {"range_x": [0.0, 3e-6], "weight_cp": 0.0, "fit param contact_point value": 0.0}
+        for k in want:
+            g, w = got[k], want[k]
+            ok = (g == w) or (isinstance(w, list) and all(abs(a - b) < 1e-15 for a, b in zip(g, w)))
+            if not ok:
+                problems.append({"script": "second session answers 0", "what": f"stored {k} = {g!r}, answered {w!r}"})
+    except BaseException as exc:
+        problems.append({"script": "second session answers 0", "what": f"raised {exc!r}"[:160]})
+    finally:
+        shutil.rmtree(tmp, ignore_errors=True)
     res = UnitResult(unit="bounded.interactive_setup")
     first = problems[0] if problems else None
     res.bounded.append(BoundedResult(
